@@ -386,3 +386,6 @@ Definition run_masks (fixd : bool) (nt : net) (m : list (nat * list bool)) :=
    map (fun i => (i, export_in fixd nt ms i, nth i (xwidths nt ms) 0))
        (filter (is_module nt) (seq 0 (length nt))),
    shape_ok fixd nt ms, sound_b nt ms, consistent_b fixd nt ms).
+
+(* buffer names registered on the consumers: (consumer, base name, prefix tokens), for the harness *)
+Definition run_names (fixd : bool) (nt : net) : list key := map fst (store (register_all fixd nt)).
